@@ -1,7 +1,7 @@
 //go:build verif
 
 // In-package probe of vegeta's package main, used by the /verif monitors
-// (C16, C18, C19). It is NOT part of the repository: /verif/check maps it into
+// (C16, C18, C19, C20). It is NOT part of the repository: /verif/check maps it into
 // the package at build time with `go test -c -tags verif -overlay`. It holds no
 // oracle: it builds the real flag set of the attack command, applies values,
 // and reports what the real flag.Values / the real internal/resolver did.
@@ -13,6 +13,7 @@ package main
 
 import (
 	"bufio"
+	"bytes"
 	"context"
 	"encoding/hex"
 	"encoding/json"
@@ -25,7 +26,10 @@ import (
 	"testing"
 	"time"
 
+	"github.com/prometheus/client_golang/prometheus"
 	"github.com/tsenart/vegeta/v12/internal/resolver"
+	vegeta "github.com/tsenart/vegeta/v12/lib"
+	prom "github.com/tsenart/vegeta/v12/lib/prom"
 )
 
 type verifCmd struct {
@@ -37,6 +41,8 @@ type verifCmd struct {
 	Addrs      []string `json:"addrs,omitempty"`
 	Dials      int      `json:"dials,omitempty"`
 	Goroutines int      `json:"goroutines,omitempty"`
+	Results    int      `json:"results,omitempty"` // pump: number of results fed to processAttack
+	ErrEvery   int      `json:"err_every,omitempty"`
 }
 
 type verifDial struct {
@@ -56,6 +62,12 @@ type verifAns struct {
 	AllocBytes uint64            `json:"alloc_bytes"`
 	Err        string            `json:"err,omitempty"`
 	Dials      []verifDial       `json:"dials,omitempty"`
+	// pump: what the real result pump (processAttack) wrote and what the metrics it fed report
+	Written       int     `json:"written,omitempty"`
+	ObservedCount uint64  `json:"observed_count,omitempty"`
+	ObservedIn    float64 `json:"observed_bytes_in,omitempty"`
+	ObservedOut   float64 `json:"observed_bytes_out,omitempty"`
+	ObservedFail  float64 `json:"observed_fail,omitempty"`
 }
 
 func verifRun(c verifCmd) (a verifAns) {
@@ -146,6 +158,62 @@ func verifRun(c verifCmd) (a verifAns) {
 		}
 		close(start)
 		wg.Wait()
+	case "pump":
+		// the real result pump of the attack command, fed as fast as a channel
+		// allows, with a fresh attacker, a gob encoder and Prometheus metrics
+		atk := vegeta.NewAttacker()
+		res := make(chan *vegeta.Result)
+		var buf bytes.Buffer
+		enc := vegeta.NewEncoder(&buf)
+		sig := make(chan os.Signal, 1)
+		pm := prom.NewMetrics()
+		reg := prometheus.NewRegistry()
+		if err := pm.Register(reg); err != nil {
+			a.Err = err.Error()
+			return
+		}
+		go func() {
+			base := time.Unix(1700000000, 0)
+			for i := 0; i < c.Results; i++ {
+				r := &vegeta.Result{Attack: "pump", Seq: uint64(i), Code: 200, Timestamp: base.Add(time.Duration(i) * time.Microsecond),
+					Latency: time.Duration(1+i%7) * time.Millisecond, BytesIn: uint64(10 + i%5), BytesOut: uint64(i % 3), Method: "GET", URL: fmt.Sprintf("http://pump/%d", i%4)}
+				if c.ErrEvery > 0 && i%c.ErrEvery == 0 {
+					r.Code, r.Error = 500, "500 Internal Server Error"
+				}
+				res <- r
+			}
+			close(res)
+		}()
+		if err := processAttack(atk, res, enc, sig, pm); err != nil {
+			a.Err = err.Error()
+		}
+		dec := vegeta.NewDecoder(&buf)
+		for {
+			var r vegeta.Result
+			if dec.Decode(&r) != nil {
+				break
+			}
+			a.Written++
+		}
+		mfs, err := reg.Gather()
+		if err != nil {
+			a.Err = err.Error()
+			return
+		}
+		for _, mf := range mfs {
+			for _, m := range mf.GetMetric() {
+				switch mf.GetName() {
+				case "request_seconds":
+					a.ObservedCount += m.GetHistogram().GetSampleCount()
+				case "request_bytes_in":
+					a.ObservedIn += m.GetCounter().GetValue()
+				case "request_bytes_out":
+					a.ObservedOut += m.GetCounter().GetValue()
+				case "request_fail_count":
+					a.ObservedFail += m.GetCounter().GetValue()
+				}
+			}
+		}
 	default:
 		a.Err = "unknown op"
 	}
